@@ -24,8 +24,19 @@ CFG = {
             "untagged but unpublished, configured + foreign) and on a trait that can always be built: get_tag_config() "
             "of the impl- and stub-built descriptions, the refused operation ids per style (free functions on an "
             "ApiDescription carrying the declared TagConfig / trait impl / trait stub) and document equality; a "
-            "declared configuration that is not in force is a violation. Group 'refuse' (c19 --mode refuse): 98 declarations around the macro's "
-            "refusal boundaries compiled with cargo check in a scratch crate, function form and trait form. "
+            "declared configuration that is not in force is a violation (plus 33 / 65 defined tags, and probe endpoints "
+            "with a foreign tag in ninth position and with 33 tags). Large-scope batch (harness/src/bin/c19/large.rs, "
+            "deterministic, both tiers, evidence tags large:*): one API of 260 declarations in the three styles with "
+            "9/17/33 tags on an endpoint, paths of 17/33/34 segments and 9/17 variables, operation ids of 255/256/257 "
+            "characters (ASCII and multi-byte), doc comments of 17/65/257 lines and ~8 KiB in five comment styles "
+            "(///, decorated and plain /** */, one multi-line #[doc], one #[doc] per line; blank lines, trailing "
+            "blanks, multi-byte text, hyphen chains, 257 leading blank lines, 129 paragraphs, an 8 KiB summary line), "
+            "request_body_max_bytes 0/1/65535/65536/u32::MAX/u32::MAX+1/i64::MAX/usize::MAX, version bounds up to "
+            "u64::MAX.u64::MAX.u64::MAX, three extractors; the plain filler declarations are judged one in sixteen "
+            "(all are in the APIs and in the whole-document comparison). Group 'refuse' (c19 --mode refuse): 98 declarations around the macro's "
+            "refusal boundaries compiled with cargo check in a scratch crate, function form and trait form (including "
+            "300-character pre-release / build strings, a major number of u64::MAX+1, and 3 / 4 / 5 extractor "
+            "parameters: the maximum is 3). "
             "Non-trivial: every declaration case (each is a distinct program); a docs case with at least one "
             "operation. The doc attribute strings are taken as rustc tokenises them (captured by a macro_rules! "
             "invocation over the same comments) and must equal the generator's record.",
